@@ -80,7 +80,7 @@ def run(ctx):
     if err:
         ctx.violation('translator of yy_get_next_buffer() gave up: ' + err, {'error': err}, no_input=True)
     q1, q2, q3 = {'quick': (64, 48, 32), 'thorough': (600, 400, 200)}[ctx.tier]
-    plan = [('plain', q1, 8), ('ops', q2, 6), ('eof', q3, 4), ('reads', q2, 6), ('bufreq', q2, 6), ('unput', q3, 6), ('memmore', q3, 6)]
+    plan = [('plain', q1, 8), ('ops', q2, 6), ('eof', q3, 4), ('reads', q2, 6), ('bufreq', q2, 6), ('unput', q3, 6), ('memmore', q3, 6), ('stdioint', q3, 6)]
     return rtprop.run(ctx, THEOREMS + NEXTBUF_THEOREMS, plan, 'proof',
                       'delivery independence: every case runs the real scanner under a buffer size in {1,2,3,4,5,7,8,16,33,16384} and a read schedule (1-byte, small random, larger random, unrestricted); the Lean abstract scanner has no buffer at all, so equality of traces is independence from delivery; `reads` family: with 1-byte reads every action logs how many bytes the scanner has asked for so far, and the model predicts that number from the automaton alone (batch: up to the byte that jams it; interactive: also stops at a state without outgoing transitions) - an interactive scanner that asks for more has over-read; `bufreq` family: every read request (`rq n`: its size depends on yy_buf_size, on the partial token moved to the front, on growth by doubling and on YY_READ_BUF_SIZE) must be the request of the Lean buffer machine Runtime/Buf.lean, for which run_tokens proves - for every buffer size, every cutting of the input into reads and every automaton - that the tokens are those of a scan of the whole input (scanners whose actions leave the input alone; REJECT and the NUL-sentinel detour are not in that model); yy_get_next_buffer() itself is translated from a scanner flex generates in this run (Gen/NextBuf.lean, YY_INPUT a reader outside the model that delivers at most what it is asked for) and proved, for every buffer size >= 1, fill level, token position and delivery: the unfinished token is moved to the front, the bytes delivered follow it in order, then the two end marks, inside a buffer that grew by doubling if needed; the reader is asked for at least one byte; end of file is reported only when it delivered none; no access is out of bounds and both loops end (C03NextBuf.nextBuf_read, nextBuf_eof_pending, nextBuf_nofill, nextBuf_overflow, never_out_of_bounds, eof_only_when_reader_dry, delivered_is_scanned; c99 skeleton: C03NextBufC99.nextBuf99_correct); both translations are proved to do the refill step of the buffer machine - same buffer contents, same size after the same doubling, same read request, same verdict (C03Refine.refines_refill)' + '. Kernel-checked theorems about the abstract scanner (listed under obligations) + differential '
                       'correspondence of the real generated scanner (ASan/UBSan build) with that model on generated cases.',
